@@ -21,7 +21,18 @@ Definition obs_eqb (a b : run_obs) : bool :=
   text_eqb (ro_out_stream a) (ro_out_stream b) && text_eqb (ro_err_stream a) (ro_err_stream b) &&
   texts_eqb (ro_out_submits a) (ro_out_submits b) && texts_eqb (ro_err_submits a) (ro_err_submits b).
 
-Definition corr (c : case) : bool := c_done c && obs_eqb (run_model (c_in c)) (c_obs c).
+(* The code as it is (since the F-C02 fix): one incremental decoder per stream.
+   Texts only: CPython's incremental decoder holds back a truncated ED A0..BF pair
+   (surrogatepass support) until the next read, so its per-read pieces differ from
+   [drun]'s in that one corner while the totals agree. *)
+Definition obs_text_eqb (a b : run_obs) : bool :=
+  text_eqb (ro_stdout a) (ro_stdout b) && text_eqb (ro_stderr a) (ro_stderr b) &&
+  text_eqb (ro_out_stream a) (ro_out_stream b) && text_eqb (ro_err_stream a) (ro_err_stream b).
+Definition corr (c : case) : bool := c_done c && obs_text_eqb (run_model_inc (c_in c)) (c_obs c).
+
+(* Correspondence with the per-read loop the code had before the fix (historical;
+   a tree that reverts the fix satisfies this one instead). *)
+Definition corr_legacy (c : case) : bool := c_done c && obs_eqb (run_model (c_in c)) (c_obs c).
 
 Definition spec_in (i : run_in) (o : run_obs) : bool :=
   spec_ok (ri_enc i) (stream_bytes (ri_out i)) (stream_bytes (ri_err i)) (to_req (ri_hide i))
@@ -29,20 +40,6 @@ Definition spec_in (i : run_in) (o : run_obs) : bool :=
           (ro_stdout o) (ro_stderr o) (ro_out_stream o) (ro_err_stream o).
 
 Definition spec (c : case) : bool := c_done c && spec_in (c_in c) (c_obs c).
-
-(** Would the repaired loop have produced an acceptable run?  (Reported in the
-    evidence; not part of the verdict.) *)
-Definition repaired_ok (c : case) : bool := spec_in (c_in c) (run_model_inc (c_in c)).
-
-(** Correspondence with the REPAIRED loop model (to be used as [corr] once the
-    incremental-decoder fix is in the tree). *)
-Definition obs_text_eqb (a b : run_obs) : bool :=
-  text_eqb (ro_stdout a) (ro_stdout b) && text_eqb (ro_stderr a) (ro_stderr b) &&
-  text_eqb (ro_out_stream a) (ro_out_stream b) && text_eqb (ro_err_stream a) (ro_err_stream b).
-(* texts only: CPython's incremental decoder holds back a truncated ED A0..BF pair
-   (surrogatepass support), so its per-read pieces differ from [drun]'s in that one
-   case while the totals agree *)
-Definition corr_inc (c : case) : bool := c_done c && obs_text_eqb (run_model_inc (c_in c)) (c_obs c).
 
 (** Decoder validation: model and reference against CPython. *)
 Record dcase := mkd { d_enc : enc; d_bytes : bytes; d_text : text }.
